@@ -171,3 +171,60 @@ Proof.
   apply not_true_is_false. intros H. rewrite forallb_forall in H. specialize (H _ Hin).
   unfold field_ok in H. rewrite Hm in H. cbn [is_null] in H. apply N.eqb_neq in Hk. rewrite Hk in H. discriminate.
 Qed.
+
+(* ---- what every constructed token satisfies (C10), and why it can be sealed and read back (C07) ---- *)
+Lemma opt_in53b_prop z : opt_in53b z = true -> opt_in53 z.
+Proof. destruct z; cbn; auto. Qed.
+
+Lemma parse_ok_self s : is_ok (Command.parse s) = true -> Command.parse s = Ok s.
+Proof.
+  unfold Command.parse. destruct (negb (has_prefix top s)); [discriminate|].
+  destruct ((1 <? length s)%nat && (last s 0 =? sep)); [discriminate|].
+  destruct (negb (str_eqb s (to_lower s))); [discriminate|]. reflexivity.
+Qed.
+
+Theorem dlg_new_wf iss aud sub cmd pol ng r12 meta nbf exp t :
+  dlg_new iss aud sub cmd pol ng r12 meta nbf exp = Ok t ->
+  defined (dk_iss t) = true /\ defined (dk_aud t) = true /\ (12 <= length (dk_nonce t))%nat /\
+  Command.parse (dk_cmd t) = Ok (dk_cmd t) /\ opt_in53 (dk_nbf t) /\ opt_in53 (dk_exp t) /\
+  ints_in53 (pol_to_ipld (dk_pol t)) = true /\
+  t = {| dk_iss := iss; dk_aud := aud; dk_sub := sub; dk_cmd := cmd; dk_pol := pol;
+         dk_nonce := default_nonce ng r12; dk_meta := meta; dk_nbf := nbf; dk_exp := exp |}.
+Proof.
+  unfold dlg_new, dlg_validate. cbn [dk_iss dk_aud dk_sub dk_cmd dk_pol dk_nonce dk_meta dk_nbf dk_exp].
+  destruct (defined iss) eqn:E1; cbn [negb]; [|discriminate].
+  destruct (defined aud) eqn:E2; cbn [negb]; [|discriminate].
+  destruct (Nat.ltb_spec (length (default_nonce ng r12)) 12); [discriminate|].
+  destruct (is_ok (Command.parse cmd)) eqn:E4; cbn [negb]; [|discriminate].
+  destruct (opt_in53b nbf && opt_in53b exp) eqn:E5; cbn [negb]; [|discriminate].
+  destruct (ints_in53 (pol_to_ipld pol)) eqn:E6; cbn [negb]; [|discriminate].
+  intros [= <-]. cbn. apply andb_true_iff in E5 as [E5a E5b].
+  repeat split; auto using parse_ok_self, opt_in53b_prop.
+Qed.
+
+Theorem inv_new_wf iss sub aud cmd args prf ng r12 meta exp iat cause t :
+  inv_new iss sub aud cmd args prf ng r12 meta exp iat cause = Ok t ->
+  defined (ik_iss t) = true /\ defined (ik_sub t) = true /\ (12 <= length (ik_nonce t))%nat /\
+  Command.parse (ik_cmd t) = Ok (ik_cmd t) /\ opt_in53 (ik_exp t) /\ opt_in53 (ik_iat t) /\
+  ik_aud t = norm_aud sub aud.
+Proof.
+  unfold inv_new, inv_validate. cbn [ik_iss ik_sub ik_aud ik_cmd ik_args ik_prf ik_meta ik_nonce ik_exp ik_iat ik_cause].
+  destruct (defined iss) eqn:E1; cbn [negb]; [|discriminate].
+  destruct (defined sub) eqn:E2; cbn [negb]; [|discriminate].
+  destruct (Nat.ltb_spec (length (default_nonce ng r12)) 12); [discriminate|].
+  destruct (is_ok (Command.parse cmd)) eqn:E4; cbn [negb]; [|discriminate].
+  destruct (opt_in53b exp && opt_in53b iat) eqn:E5; cbn [negb]; [|discriminate].
+  intros [= <-]. cbn. apply andb_true_iff in E5 as [E5a E5b].
+  repeat split; auto using parse_ok_self, opt_in53b_prop.
+Qed.
+
+(* a token a constructor returned, over DIDs that came out of the DID package and statements that came out
+   of the policy constructors, meets the premises of the seal -> unseal theorems *)
+Theorem dlg_new_constructed iss aud sub cmd pol ng r12 meta nbf exp t :
+  dlg_new iss aud sub cmd pol ng r12 meta nbf exp = Ok t ->
+  did_ok iss -> did_ok aud -> match sub with Some d => did_ok d | None => True end ->
+  Forall wf_stmt pol -> no_null_values meta = true -> dlg_constructed t.
+Proof.
+  intros H Hi Ha Hs Hp Hm. apply dlg_new_wf in H as (_ & _ & Hn & Hc & Hnbf & Hexp & Hpi & ->).
+  constructor; cbn; auto.
+Qed.
